@@ -184,6 +184,15 @@ class Report:
             st[0] += 1
             if o["status"] == "discharged":
                 st[1] += 1
+        reasons = {}
+        for b in self.bounded:
+            d = b.get("detail") or {}
+            why = d.get("why_not_proved") if isinstance(d, dict) else None
+            if isinstance(why, dict):
+                why = why.get("taylor") or ("interval bound above tolerance" if any(k.startswith("bound_scale") for k in why) else str(why)[:80])
+            key = "%s | %s" % (b.get("backend"), (why or "")[:100])
+            reasons[key] = reasons.get(key, 0) + 1
+        cov["bounded_standins_by_reason"] = reasons
         cov["obligations_by_function_scenario"] = {k: {"generated": v[0], "discharged": v[1]} for k, v in sorted(by.items())[:600]}
         cov.update(self.extra)
         ev = {
